@@ -123,7 +123,7 @@ def _is_no_proxy_host(hostname: str, no_proxy: Optional[list]) -> bool:
         )
     for domain in [domain for domain in no_proxy if domain.startswith(".")]:
         endDomain = domain.lstrip('.')
-        if hostname.endswith(endDomain):
+        if hostname == endDomain or hostname.endswith("." + endDomain):
             return True
     return False
 
